@@ -25,9 +25,12 @@ Step ==
     [] Ev.ev = "aclose" -> AsyncClose(Ev.c) /\ CheckObs
     [] Ev.ev = "newsc"  -> NewSubConn(Ev.c) /\ CheckObs
                            /\ Mark(Ev.ok # (Ev.c = cur \/ Ev.c = pend), "I_NewSubConnAdmission", l)
+    [] Ev.ev = "newsc_begin" -> NewSubConnBegin(Ev.c) /\ CheckObs
+    [] Ev.ev = "newsc_end" -> NewSubConnEnd /\ CheckObs
+                              /\ Mark(Ev.ok # (inflight = cur \/ inflight = pend), "I_NewSubConnAdmission", l)
     [] Ev.ev = "close"  -> Close /\ CheckObs
     [] Ev.ev = "reset"  -> /\ cur' = 0 /\ pend' = 0 /\ nextC' = 1 /\ last' = [c \in Children |-> "CONNECTING"]
                            /\ closing' = <<>> /\ closedC' = {} /\ scOwner' = <<>> /\ scShut' = {}
-                           /\ fwdChild' = 0 /\ fwdState' = "none" /\ nfwd' = 0 /\ gsbClosed' = FALSE /\ viol' = "none"
+                           /\ fwdChild' = 0 /\ fwdState' = "none" /\ nfwd' = 0 /\ gsbClosed' = FALSE /\ viol' = "none" /\ inflight' = 0
 Next == l <= TLen /\ l' = l + 1 /\ Consumed(l) /\ Step
 ====
